@@ -210,3 +210,52 @@ def path_cases(facts, limit=256):
         if len(cases) > limit:
             break
     return cases, unknown
+
+
+def split_extremum(nf, kind):
+    """affine forms f_1..f_k with  nf == kind(f_1, ..., f_k)  (kind 'min' or 'max'), for nf = affine, or an extremum atom of
+    that kind with coefficient +1 plus an affine rest (recursively); None if nf has another shape"""
+    from .nf import single_atom as _sa
+
+    nf = lift(nf)
+    if as_linear(nf) is not None and not any(a.kind in ("min", "max") for a in as_linear(nf)[1]):
+        return [nf]
+    lin = as_linear(nf)
+    if lin is None:
+        return None
+    c0, co = lin
+    ext = [(a, k) for a, k in co.items() if a.kind in ("min", "max")]
+    if len(ext) != 1:
+        return None
+    a, k = ext[0]
+    if a.kind != kind or k != 1:
+        return None
+    rest = nf - NF.atom(a)
+    out = []
+    for arg in a.args:
+        sub = split_extremum(lift(arg) + rest, kind)
+        if sub is None:
+            return None
+        out.extend(sub)
+    return out
+
+
+def range_constraints(v, lo, hi):
+    """Lin constraints equivalent to  lo <= v <= hi - 1  for integer v, with min(...) allowed in hi and max(...) in lo;
+    None if a bound has another shape"""
+    ups = split_extremum(hi, "min")
+    lows = split_extremum(lo, "max")
+    if ups is None or lows is None:
+        return None
+    out = []
+    for u in ups:
+        l = Lin.of(u - 1 - lift(v))
+        if l is None:
+            return None
+        out.append(l)
+    for w in lows:
+        l = Lin.of(lift(v) - w)
+        if l is None:
+            return None
+        out.append(l)
+    return out
